@@ -10,8 +10,18 @@
 //	               (after the real TimeIndexBuilder.Build / ManifestBuilder.Build when asked for), list once, and
 //	               serve every later `select` through that same stack (so its caches are hit)
 //	    -> list <topic>/<partition>/<base>/<minOff>/<maxOff>/<minTs>/<maxTs>/<lastModified>;…
-//	select <topic id> part=<n|-> omin=<n|-> omax=<n|-> tmin=<n|-> tmax=<n|-> limit=<n|-> tail=<n|-> order=<-|asc|desc>
-//	    -> rows <seg:partition:offset:ts,…|->   (DataRow messages, in order)   |  err
+//	select <topic id> part=<n|-> omin=<n|-> omax=<n|-> tmin=<n|-> tmax=<n|-> limit=<n|-> tail=<n|-> order=<-|asc|desc> [fault=<-|item.item…>]
+//	    -> rows <seg:partition:offset:ts,…|->   (DataRow messages, in order, of a query that completed with `SELECT n`)
+//	     | err                                   (handleSelectWithCache returned an error: the client gets an ErrorResponse)
+//	     | tag-mismatch …                        (completed, but the CommandComplete tag does not count the DataRows)
+//	   every select goes through the real handleSelectWithCache of ONE Server per world state (result cache on: TTL 1 h);
+//	   the query text (cache key) is the line without its fault token. Fault items, valid for this one query:
+//	     l      lister.ListCompleted returns an error
+//	     d<i>   Decoder.Decode of the segment at listing position i returns an error
+//	     c<i>   the query context is cancelled when Decode of the segment at listing position i starts (Decode returns ctx.Err())
+//	s3fault <-|item,item…>   persistent faults of the in-process S3 endpoint (HTTP 403 AccessDenied, not retried by the SDK):
+//	     L  ListObjectsV2;  p:<key>  the ranged GetObject bytes=-4 of <key> (footer-magic probe);
+//	     t:<key>  GetObject of <key> (a .kfst time-index footer);  g:<key>  any GetObject of <key>
 package main
 
 import (
@@ -19,6 +29,7 @@ import (
 	"bytes"
 	"context"
 	"encoding/hex"
+	"errors"
 	"fmt"
 	"net/http/httptest"
 	"os"
@@ -46,7 +57,15 @@ type world struct {
 	objs   map[string][]decoder.Record // .kfs key -> records
 	lister discovery.Lister            // the real stack built by `list`
 	srv    *httptest.Server
+	sql    *server.Server // the Server (and its result cache) that answers the selects; dropped when the world changes
+
+	// faults of the query that is running
+	faultList bool
+	faultDec  map[int]byte // listing position -> 'd' (Decode error) | 'c' (cancel the context, return its error)
+	cancel    context.CancelFunc
 }
+
+var errInjected = errors.New("verif: injected fault")
 
 func (w *world) index(key string) int {
 	for i, s := range w.segs {
@@ -58,6 +77,9 @@ func (w *world) index(key string) int {
 }
 
 func (w *world) ListCompleted(ctx context.Context) ([]discovery.SegmentRef, error) {
+	if w.faultList {
+		return nil, errInjected
+	}
 	if w.lister != nil {
 		return w.lister.ListCompleted(ctx)
 	}
@@ -69,10 +91,19 @@ func (w *world) ListCompleted(ctx context.Context) ([]discovery.SegmentRef, erro
 }
 
 func (w *world) Decode(ctx context.Context, segmentKey, indexKey string, topic string, partition int32) ([]decoder.Record, error) {
+	i := w.index(segmentKey)
+	switch w.faultDec[i] {
+	case 'd':
+		return nil, errInjected
+	case 'c':
+		if w.cancel != nil {
+			w.cancel()
+		}
+		return nil, ctx.Err()
+	}
 	if recs, ok := w.objs[segmentKey]; ok {
 		return append([]decoder.Record(nil), recs...), nil
 	}
-	i := w.index(segmentKey)
 	if i < 0 {
 		return nil, fmt.Errorf("unknown segment %q", segmentKey)
 	}
@@ -141,17 +172,52 @@ func runSelect(w *world, f []string) (line string) {
 	case "desc":
 		q.OrderBy, q.OrderDesc = "_ts", true
 	}
-	srv := server.VerifNewServer(config.Config{Query: config.QueryConfig{DefaultLimit: 1000, MaxUnbounded: 100000}}, w, w, nil)
+	if w.sql == nil {
+		w.sql = server.VerifNewServer(config.Config{
+			Query:       config.QueryConfig{DefaultLimit: 1000, MaxUnbounded: 100000},
+			ResultCache: config.ResultCacheConfig{TTLSeconds: 3600, MaxEntries: 100000, MaxRows: 10000},
+		}, w, w, nil)
+	}
+	w.faultList, w.faultDec = false, map[int]byte{}
+	if spec := m["fault"]; spec != "" && spec != "-" {
+		for _, it := range strings.Split(spec, ".") {
+			switch {
+			case it == "l":
+				w.faultList = true
+			case len(it) > 1 && (it[0] == 'd' || it[0] == 'c'):
+				i, err := strconv.Atoi(it[1:])
+				if err != nil {
+					return "bad-op"
+				}
+				if _, dup := w.faultDec[i]; !dup {
+					w.faultDec[i] = it[0]
+				}
+			default:
+				return "bad-op"
+			}
+		}
+	}
+	ctx, cancel := context.WithCancel(context.Background())
+	w.cancel = cancel
+	defer func() {
+		cancel()
+		w.cancel, w.faultList, w.faultDec = nil, false, nil
+	}()
 	var buf bytes.Buffer
-	if err := srv.VerifSelect(context.Background(), &buf, q); err != nil {
+	if err := w.sql.VerifSelectCached(ctx, &buf, q, strings.Join(f[:10], " ")); err != nil {
 		return "err"
 	}
 	fe := pgproto3.NewFrontend(pgproto3.NewChunkReader(&buf), &bytes.Buffer{})
 	var rows []string
+	tag := ""
 	for {
 		msg, err := fe.Receive()
 		if err != nil {
 			break
+		}
+		if cc, ok := msg.(*pgproto3.CommandComplete); ok {
+			tag = string(cc.CommandTag)
+			continue
 		}
 		dr, ok := msg.(*pgproto3.DataRow)
 		if !ok {
@@ -169,6 +235,9 @@ func runSelect(w *world, f []string) (line string) {
 			}
 		}
 		rows = append(rows, strconv.Itoa(w.index(string(dr.Values[7])))+":"+string(dr.Values[1])+":"+string(dr.Values[2])+":"+ts)
+	}
+	if tag != "SELECT "+strconv.Itoa(len(rows)) {
+		return fmt.Sprintf("tag-mismatch %q rows=%d", tag, len(rows))
 	}
 	if len(rows) == 0 {
 		return "rows -"
@@ -235,21 +304,27 @@ func runList(w *world, withTimeIndex, manifest bool, ttl int) (line string) {
 		TimeIndex:      config.TimeIndexConfig{Enabled: withTimeIndex},
 		DiscoveryCache: config.DiscoveryCacheConfig{TTLSeconds: ttl, MaxEntries: 10000},
 	}
+	// the builders run before the faults of the endpoint apply: only the lister stack itself is faulted
+	armed := w.s3.SetFaults(nil)
 	if withTimeIndex {
 		if err := w.s3.VerifBuildTimeIndex(ctx, "", w); err != nil {
+			w.s3.SetFaults(armed)
 			return "err-build"
 		}
 	}
 	if manifest {
 		base, err := discovery.New(config.Config{S3: cfg.S3, TimeIndex: cfg.TimeIndex})
 		if err != nil {
+			w.s3.SetFaults(armed)
 			return "err-new"
 		}
 		if err := discovery.VerifBuildManifest(ctx, cfg, base); err != nil {
+			w.s3.SetFaults(armed)
 			return "err-manifest"
 		}
 		cfg.Manifest = config.ManifestConfig{Enabled: true, TTLSeconds: ttl}
 	}
+	w.s3.SetFaults(armed)
 	l, err := discovery.New(cfg)
 	if err != nil {
 		return "err-new"
@@ -257,6 +332,8 @@ func runList(w *world, withTimeIndex, manifest bool, ttl int) (line string) {
 	w.lister = nil
 	refs, err := l.ListCompleted(ctx)
 	if err != nil {
+		// the stack stays in place: later selects list again through it
+		w.lister, w.segs = l, nil
 		return "err-list"
 	}
 	w.lister = l
@@ -320,6 +397,7 @@ func main() {
 			if strings.Contains(f[4], "i") {
 				w.s3.Objects[stem+".index"] = []byte("idx")
 			}
+			w.sql = nil
 			fmt.Fprintln(out, "obj")
 		case f[0] == "list" && len(f) == 4:
 			ttl, err := strconv.Atoi(f[3])
@@ -327,6 +405,7 @@ func main() {
 				fmt.Fprintln(out, "bad-op")
 				continue
 			}
+			w.sql = nil
 			fmt.Fprintln(out, runList(w, f[1] == "1", f[2] == "1", ttl))
 		case f[0] == "seg" && len(f) == 9:
 			part, err := strconv.ParseInt(f[2], 10, 32)
@@ -371,8 +450,18 @@ func main() {
 				continue
 			}
 			w.segs = append(w.segs, s)
+			w.sql = nil
 			fmt.Fprintln(out, "seg")
-		case f[0] == "select" && len(f) == 10:
+		case f[0] == "s3fault" && len(f) == 2:
+			faults := map[string]bool{}
+			if f[1] != "-" {
+				for _, it := range strings.Split(f[1], ",") {
+					faults[it] = true
+				}
+			}
+			w.s3.SetFaults(faults)
+			fmt.Fprintln(out, "s3fault")
+		case f[0] == "select" && (len(f) == 10 || (len(f) == 11 && strings.HasPrefix(f[10], "fault="))):
 			fmt.Fprintln(out, runSelect(w, f))
 		default:
 			fmt.Fprintln(out, "bad-op")
